@@ -74,10 +74,26 @@ def run_transition(ctx, w, tb, only_states=None, rule="T1"):
                 got = (c.next_state, oa if not extra else oa + "+" + "+".join(extra), oc)
                 # a dispatching/executing arm must leave in the reference state
                 ok = want == got
+                if ok and ra in ("execute", "esc_dispatch", "csi_dispatch") and st != "EscapeIntermediate":
+                    # the function produced (no intermediate collected) for both ends of the atom
+                    for y in sorted({x, (a[1] - 1) if x == a[0] else x}):
+                        o2 = tb.step(st, y)
+                        res = tables.describe(o2.result)
+                        if ra == "execute":
+                            wres = REF.EXECUTE.get(y)
+                        elif ra == "esc_dispatch":
+                            wres = REF.esc(None, y) if y <= 0x7E else None
+                        else:
+                            wres = REF.csi(None, y) if y <= 0x7E else None
+                        if isinstance(wres, tuple) and isinstance(res, tuple) and len(res) == 2 and isinstance(res[1], tuple) and res[1] and res[1][0] in ("modes", "collect"):
+                            continue      # symbolic payloads are compared in T5/T6
+                        if res != wres:
+                            ok = False
+                            got = got + ("result %r for U+%04X, reference %r" % (res, y, wres),)
                 ctx.check(
                     ok, rule, "%s/%s" % (st, fmt_atom(a) if x == a[0] else "U+%04X" % x),
-                    "state %s, input %s: reference says next=%s action=%s clear=%s but the code does next=%s action=%s clear=%s (arm %s)"
-                    % (st, fmt_atom(a), rn, ra, rc, got[0], got[1], got[2], c.arm),
+                    "state %s, input %s: reference says next=%s action=%s clear=%s but the code does next=%s action=%s clear=%s (arm %s)%s"
+                    % (st, fmt_atom(a), rn, ra, rc, got[0], got[1], got[2], c.arm, ("; " + got[3]) if len(got) > 3 else ""),
                     loc=c.loc,
                     sample={"state": st, "input": fmt_atom(a), "next": got[0], "action": got[1], "clear": got[2], "arm": c.arm},
                 )
@@ -249,10 +265,79 @@ def run(ctx, w):
     ctx.floor("T5a", 1, "parameter accessors")
 
     run_t7(ctx, w, tb)
+    capacity(ctx, w, tb)
     # T8: parameter values are delivered as written up to 65535: the digit fold
     # never drops a digit and cannot overflow the type it computes in (C01.R7)
-    from rules import c01
+    from rules import c01, c08
     c01.digits(ctx, w)
+    c08.decode_rules(ctx, w)
+    defaults_through_helper(ctx, w)
+
+
+def defaults_through_helper(ctx, w, rule="T10"):
+    """missing or 0 = default: every u16 parameter a handler receives is used
+    only as the argument of the default-mapping helper (never raw)."""
+    from rules import c05
+    E = w.E
+    ctx.rule(rule, "a numeric parameter delivered by the parser reaches the terminal only through the `0 or missing -> default` helper")
+    helper = c05.default_helper(w)
+    if not helper:
+        ctx.missing_anchor(rule, "default helper")
+        return
+    n = 0
+    for v in w.anchors["function_variants"]:
+        var = [x for x in w.facts.adts[WD.FUNCTION]["variants"] if x["name"] == v][0]
+        if not any(f["ty"]["s"] == "u16" for f in var["fields"]) and v != "Xtwinops":
+            continue
+        for h in w.handler(v):
+            fo = w.facts.fns[h]
+            T = w.terms(h)
+            b = w.body(h)
+            u16_args = [i + 1 for i, t in enumerate(fo["inputs"]) if t["s"] == "u16"]
+            for ai in u16_args:
+                raw = ("load", ("arg%d" % ai,))
+                bad = []
+                for blk in sorted(b.normal_blocks()):
+                    bl = b.blocks[blk]
+                    t = bl["term"]
+                    pt = (blk, len(bl["stmts"]))
+                    if t["k"] == "call":
+                        callee = t["callee"].get("resolved") or ""
+                        for a in t["args"]:
+                            tt = WD.strip_names(T.operand(a, pt))
+                            if contains_raw(tt, raw, helper) and callee != helper:
+                                bad.append((pt, tt))
+                    for i, st in enumerate(bl["stmts"]):
+                        if st["k"] == "assign" and st["rv"]["k"] in ("binop", "cast", "aggregate"):
+                            tt = WD.strip_names(T.rvalue(st["rv"], (blk, i)))
+                            if contains_raw(tt, raw, helper):
+                                bad.append(((blk, i), tt))
+                n += 1
+                uses_helper = any(WD.strip_names(T.operand(cs.term["args"][0], cs.point)) == raw for cs in E.call_sites(h, helper))
+                ctx.check(not bad and uses_helper, rule, "%s:arg%d" % (v, ai),
+                          "Function::%s: its numeric parameter is used raw%s instead of going through %s: a missing or 0 parameter no longer means the default" % (v, (" in " + w.tstr(h, bad[0][1])[:80]) if bad else "", helper),
+                          loc=w.stmt_loc(h, bad[0][0]) if bad else w.fn_loc(h), sample={"function": v, "through_helper": uses_helper})
+    ctx.floor(rule, 20, "numeric handler parameters")
+
+
+def contains_raw(t, raw, helper):
+    if t == raw:
+        return True
+    if isinstance(t, tuple):
+        if t and t[0] == "call" and t[1] == helper:
+            return False
+        return any(contains_raw(x, raw, helper) for x in t if isinstance(x, tuple))
+    return False
+
+
+def capacity(ctx, w, tb, rule="T9"):
+    """up to 32 parameters, up to 6 values per parameter"""
+    ctx.rule(rule, "the parser keeps 32 parameters with up to 6 colon-separated values each")
+    pf = [f for f in w.facts.struct_fields(tb.parser_ty) if "array" in f["ty"]][0]
+    ctx.check(pf["ty"].get("len") == 32, rule, "parameters", "the parameter array holds %s entries; sequences with up to 32 parameters must be delivered as written" % pf["ty"].get("len"),
+              sample={"parameters": pf["ty"].get("len")})
+    sf = [f for f in w.facts.struct_fields(tb.param_ty) if "array" in f["ty"]][0]
+    ctx.check(sf["ty"].get("len") == 6, rule, "sub-parameters", "a parameter holds %s values; the SGR colour forms need up to 6 (38:2::r:g:b)" % sf["ty"].get("len"), sample={"values": sf["ty"].get("len")})
 
 
 def run_t7(ctx, w, tb):
